@@ -379,6 +379,7 @@ WIRE_HOSTS = ["127.0.0.1", "localhost", "LOCALHOST", "LocalHost.", "[::1]", "[::
 
 
 class Wire(Family):
+    realtime = True     # runs on the wall clock (sockets, threads): a failure is re-run once before it counts (core.run_family)
     name = "wire"
     quick_n = 260
     thorough_n = 4000
